@@ -81,6 +81,72 @@ def kinds_on_branch(test, branch: bool) -> Optional[Set[str]]:
   return None
 
 
+def eval3(test, kind: Optional[str], param_var: Optional[str] = None):
+  """Three-valued truth of `test` for a parameter of the given kind (None =
+
+  "no such parameter": `param_var is None` holds).  True / False / None
+  (unknown: depends on something other than the kind).
+  """
+  if isinstance(test, ast.UnaryOp) and isinstance(test.op, ast.Not):
+    v = eval3(test.operand, kind, param_var)
+    return None if v is None else not v
+  if isinstance(test, ast.BoolOp):
+    vals = [eval3(v, kind, param_var) for v in test.values]
+    if isinstance(test.op, ast.And):
+      if any(v is False for v in vals):
+        return False
+      return True if all(v is True for v in vals) else None
+    if any(v is True for v in vals):
+      return True
+    return False if all(v is False for v in vals) else None
+  if param_var is not None and isinstance(test, ast.Compare) and len(
+      test.ops) == 1 and isinstance(test.left, ast.Name) and (
+          test.left.id == param_var) and isinstance(
+              test.comparators[0], ast.Constant) and (
+                  test.comparators[0].value is None):
+    if isinstance(test.ops[0], ast.Is):
+      return kind is None
+    if isinstance(test.ops[0], ast.IsNot):
+      return kind is not None
+  a = kind_atom(test)
+  if a is not None:
+    if kind is None:
+      return None
+    ks, pos = a
+    return (kind in ks) == pos
+  return None
+
+
+def reachable_for_kind(g, start_nodes, target: int, kind: Optional[str],
+                       param_var: Optional[str], stop: Set[int]) -> bool:
+  """Can `target` be reached from `start_nodes` when every kind test is
+
+  decided for a parameter of `kind` (unknown tests go both ways)?
+  """
+  seen = set()
+  stack = list(start_nodes)
+  while stack:
+    n = stack.pop()
+    if n in seen or n in stop:
+      continue
+    seen.add(n)
+    if n == target:
+      return True
+    if g.kind[n] == 'if':
+      v = eval3(g.stmt[n].test, kind, param_var)
+      for m, lab in g.succ[n]:
+        if lab == 'exc':
+          continue
+        if v is True and lab == 'false':
+          continue
+        if v is False and lab == 'true':
+          continue
+        stack.append(m)
+    else:
+      stack += [m for m, lab in g.succ[n] if lab != 'exc']
+  return False
+
+
 def kinds_mentioned(f: FuncInfo) -> Set[str]:
   out = set()
   for n in walk_function(f.node):
